@@ -260,6 +260,9 @@ def families(tier, seed):
                            "order": "eq_ineq", "chunks": [{"t": "exact", "names": ["z0", "mixed_generic"]}, {"t": "tab", "N": 1, "lo": 0, "hi": 2}]})
     nops = len(reuse_menu())
     reuse = [{"first": i, "depth": 3 if tier == "quick" else 4} for i in range(nops)]
+    # one fixed input (independent of VERIF_SEED) on which the recorded absolute-threshold finding always shows
+    lm = lm + [{"algo": "pgdb", "chunks": [{"t": "exact"}], "epsp": None, "flag": False, "kind": "mprocess", "loss": "re_fast", "m": 2,
+                "optset": "default", "order": "eq_ineq", "sys": "Q1", "fixed_seed": 2}]
     fams = [("plin", plin), ("lossmin", lm), ("reuse", reuse)]
     if tier == "thorough":
         sdp = []
@@ -296,6 +299,7 @@ def guards(summary):
 
 
 def execute(family, p, seed):
+    seed = p.get("fixed_seed", seed)
     return {"plin": ex_plin, "lossmin": ex_lossmin, "reuse": ex_reuse, "sdp": ex_sdp}[family](p, seed)
 
 
@@ -395,7 +399,13 @@ def ex_plin(p, seed):
                 out.count("plin_runs")
                 out.count("plin_runs_" + kind)
                 if not ok:
-                    out.fail(site + ":raises:data=" + dcls, "%s: %s" % (where, A.fmt_exc(res)))
+                    if isinstance(res, ValueError) and "imaginary parts" in str(res):
+                        # the projection's ABSOLUTE imaginary-part threshold (1e-13) hit by an intermediate point of scale ~1e3
+                        # (the gradient of the relative entropy explodes near p -> 0): same root cause as the C04 finding
+                        out.fail("LossMinimizationEstimator.calc_estimate:raises:imag-truncation-absolute-threshold:intermediate-point-of-large-scale",
+                                 "%s (%s): %s" % (where, site, A.fmt_exc(res)[:200]))
+                    else:
+                        out.fail(site + ":raises:data=" + dcls, "%s: %s" % (where, A.fmt_exc(res)))
                     continue
                 if "exceeds the limit" in txt:
                     out.count("plin_projection_iteration_limit")
@@ -652,7 +662,13 @@ def ex_lossmin(p, seed):
                     # one algorithm constraint switched off: outside the property (unbounded iterates are possible); not asserted
                     out.count("lm_one_constraint_raises_not_asserted")
                 else:
-                    out.fail(site + ":raises:data=" + dcls, "%s: %s" % (where, A.fmt_exc(res)))
+                    if isinstance(res, ValueError) and "imaginary parts" in str(res):
+                        # the projection's ABSOLUTE imaginary-part threshold (1e-13) hit by an intermediate point of scale ~1e3
+                        # (the gradient of the relative entropy explodes near p -> 0): same root cause as the C04 finding
+                        out.fail("LossMinimizationEstimator.calc_estimate:raises:imag-truncation-absolute-threshold:intermediate-point-of-large-scale",
+                                 "%s (%s): %s" % (where, site, A.fmt_exc(res)[:200]))
+                    else:
+                        out.fail(site + ":raises:data=" + dcls, "%s: %s" % (where, A.fmt_exc(res)))
                 continue
             if "projection iterations exceeds" in txt:
                 out.count("lm_projection_iteration_limit")
